@@ -293,9 +293,9 @@ pub fn run_case(c: &Case, mode: Mode, rep: &mut Report) -> Vec<Finding> {
     let keeps_history = built.dut.keeps_history;
     let n_ins = built.dut.ins.len();
     let mut r = Runner::new(built.dut);
-    if mode == Mode::C09 {
-        r.interpose = Some(Rng::new(hmix(c.seed, 0x1E16)));
-    }
+    // All four properties are also exercised with the harness acting as the
+    // concurrently running neighbour blocks inside work() calls (see drip.rs).
+    r.interpose = Some(Rng::new(hmix(c.seed, 0x1E16)));
     let mut srng = Rng::new(hmix(c.seed, 0x5C4ED));
     let mut steps = Vec::new();
     let mut prefix_bad: Option<Finding> = None;
@@ -308,15 +308,15 @@ pub fn run_case(c: &Case, mode: Mode, rep: &mut Report) -> Vec<Finding> {
             let si: Vec<&str> = call.offered_in.iter().enumerate().map(|(i, &n)| situation(n, r.dut.ins[i].capacity())).collect();
             let so: Vec<&str> = call.offered_out.iter().enumerate().map(|(o, &n)| situation(n, r.dut.outs[o].capacity())).collect();
             rep.distinct(fnv_str(&format!("{name}|{si:?}|{so:?}|{:?}|{:?}", call.verdict, call.named)));
+            if call.interposed > 0 {
+                rep.count("calls_with_neighbour_activity_inside", 1);
+                rep.count("neighbour_actions_inside_calls", call.interposed as u64);
+            }
             if mode != Mode::C09 {
                 return;
             }
             if c09.len() >= 4 {
                 return;
-            }
-            if call.interposed > 0 {
-                rep.count("calls_with_neighbour_activity_inside", 1);
-                rep.count("neighbour_actions_inside_calls", call.interposed as u64);
             }
             if let Some(w) = &call.window_overrun {
                 c09.push(Finding { class: "committed-more-than-its-window".into(), detail: w.clone() });
@@ -598,10 +598,10 @@ pub fn main(opts: &Opts, mode: Mode) -> Report {
     let prop = mode.id();
     let mut rep = Report::new(prop);
     rep.rule = match mode {
-        Mode::C08 => "per case: one library block x seeded parameters x seeded input (0..3 stream capacities) x seeded adversarial drip-feed schedule (feed 1..all, work 1..4, drain 0..all; phases trickle/small/bulk/output-kept-full) on 1-4 page streams; output compared bit-for-bit with a one-shot run on default streams, prefix checked at every drain; distinct = (block, input situation, output situation, verdict, named stream) combinations visited by work() calls".into(),
+        Mode::C08 => "per case: one library block x seeded parameters x seeded input (0..3 stream capacities) x seeded adversarial drip-feed schedule (feed 1..all, work 1..4, drain 0..all; phases trickle/small/bulk/output-kept-full) on 1-4 page streams; output compared bit-for-bit with a one-shot run on default streams, prefix checked at every drain; in a third of the scheduled calls the harness also acts as the concurrently running neighbour blocks inside the call (drains an output / feeds an input at the stream operations' yield points); distinct = (block, input situation, output situation, verdict, named stream) combinations visited by work() calls".into(),
         Mode::C09 => "the C08 catalogue and schedules, and in a third of the scheduled calls the harness also acts as the neighbouring blocks *inside* the call: at the yield points of the stream operations (no lock held) it drains an output or feeds an input, as concurrently running neighbours do under MTGraph; every work() call is observed through the stream hooks: offered vs moved per stream (with activity inside the call: every commit against the window the block was actually handed), handle counts after return, stream named by a wait verdict (identified with a non-blocking wait(0) probe); after a wait verdict the harness satisfies exactly that request and demands progress or a changed verdict within 3 calls; Again without movement is re-called 8 times; after the inputs ended retirement is demanded within 8 calls; distinct = (block, input situation, output situation, verdict, named stream)".into(),
-        Mode::C10 => "per case: block x seeded parameters x seeded input; output of the one-shot run and of the chunked run compared with an executable specification written from the documentation; distinct = (block, situation, verdict) as in C08".into(),
-        Mode::C12 => "per case: block x parameters x input carrying uniquely keyed tags clustered at likely split points x drip-feed schedule; the multiset of (key, value, absolute output index) observed at the output compared with the expected mapping; distinct as in C08".into(),
+        Mode::C10 => "per case: block x seeded parameters x seeded input; output of the one-shot run and of the chunked run compared with an executable specification written from the documentation; in a third of the scheduled calls the harness also acts as the concurrently running neighbour blocks inside the call (drains an output / feeds an input at the stream operations' yield points); distinct = (block, situation, verdict) as in C08".into(),
+        Mode::C12 => "per case: block x parameters x input carrying uniquely keyed tags clustered at likely split points x drip-feed schedule; the multiset of (key, value, absolute output index) observed at the output compared with the expected mapping; in a third of the scheduled calls the harness also acts as the concurrently running neighbour blocks inside the call (drains an output / feeds an input at the stream operations' yield points); distinct as in C08".into(),
     };
     rep.assume("the harness plays both neighbours from one thread; reference run = same block constructor on default-size streams with all input delivered at once");
 
